@@ -115,7 +115,9 @@ type Field struct {
 	Extendee string   `json:"extendee,omitempty"` // fully-qualified ".pkg.Msg" for extensions
 	Options  []Option `json:"options,omitempty"`  // json_name, default, packed, jstype, ctype, deprecated, custom
 	Comment  string   `json:"comment,omitempty"`
-	Group    *Message `json:"group,omitempty"` // for TypeKind == "group": the group body (Name = group type name)
+	// ExtendComment (extensions): leading comment of the `extend X { }` block that holds this extension
+	ExtendComment string   `json:"extend_comment,omitempty"`
+	Group         *Message `json:"group,omitempty"` // for TypeKind == "group": the group body (Name = group type name)
 }
 
 // Enum is an enum declaration.
